@@ -7,6 +7,7 @@ package server
 // synctest bubble cannot hold one command inside its snapshot while another one runs).
 
 import (
+	"syscall"
 	"bufio"
 	"bytes"
 	"fmt"
@@ -78,7 +79,12 @@ func genSnapshot(rng *mrand.Rand, n int, tier string, w *bufio.Writer) {
 
 func runSnapshot(t *testing.T, fx *fixtures, c verifCase, w *bufio.Writer) {
 	fmt.Fprintln(w, c.header)
-	dir, err := os.MkdirTemp("", "verif-snap-")
+	// the state file lives on its own volume in production: put it on a filesystem other than the process's
+	// temporary directory whenever the machine has one (a rename across the two fails with EXDEV)
+	dir, err := os.MkdirTemp(otherFilesystemDir(), "verif-snap-")
+	if err != nil {
+		dir, err = os.MkdirTemp("", "verif-snap-")
+	}
 	if err != nil {
 		t.Fatal(err)
 	}
@@ -227,4 +233,23 @@ func (r *ctlRun) overlapResult(resA, resB string) string {
 	data, err := os.ReadFile(r.state)
 	return fmt.Sprintf("overlap resa=%s resb=%s file=%s live=%s", strings.TrimPrefix(resA, "res "), strings.TrimPrefix(resB, "res "),
 		r.restoredCfg(data, err == nil), cfgOf(r.router))
+}
+
+// otherFilesystemDir names a writable directory on a filesystem different from os.TempDir()'s, or "" (= the
+// temporary directory itself) when there is none.
+func otherFilesystemDir() string {
+	var a, b syscall.Stat_t
+	if syscall.Stat(os.TempDir(), &a) != nil {
+		return ""
+	}
+	for _, d := range []string{"/dev/shm", "/run/shm", "/var/tmp"} {
+		if syscall.Stat(d, &b) == nil && b.Dev != a.Dev {
+			if f, err := os.CreateTemp(d, "verif-probe-"); err == nil {
+				f.Close()
+				os.Remove(f.Name())
+				return d
+			}
+		}
+	}
+	return ""
 }
